@@ -17,6 +17,8 @@ CHECKS = {
     "C05": (checks_problem.run, "model_checking"),
     "C01": (checks_domain.run_c01, "model_checking"),
     "C04": (checks_hist.run_c04, "model_checking"),
+    "C08": (checks_domain.run_c08, "translation_validation"),
+    "C09": (checks_domain.run_c09, "model_checking"),
     "C07": (checks_hist.run_c07, "model_checking"),
     "C10": (checks_hist.run_c10, "model_checking"),
     "C14": (checks_hist.run_c14, "model_checking"),
@@ -108,6 +110,23 @@ META["C01"] = {
     "text": "The PDDL grammar lives in the specification: TLC reads each domain text (as a token tree from an independent "
             "reader) into an AST, compares the library's vocabulary with it and judges the library's applicability / successor "
             "answers against the AST's semantics; forms outside the fragment must be faithful or raise."}
+META["C08"] = {
+    "engine": "V(+M)", "design_ref": "DESIGN.md section 6 (C08-C10)",
+    "note": "Translation validation of each export: two programs (source domain and exported text, both read by the "
+            "specification) must have equal vocabulary and equal behaviour tables over the universe; bounded by the states / "
+            "calls examined. Trusted base: independent reader.",
+    "technique": "per-export translation validation inside TLC: the exported text is read by the TLA+ grammar and its actions' "
+                 "Holds/Succ tables are compared with the source's over the whole small universe",
+    "text": "Every exported domain text is re-read by the specification and proved equivalent to the source on the explored "
+            "universe (vocabulary equality, applicability and successor equality for every call and state), twice in a row; "
+            "the library's own re-parse must have the same vocabulary."}
+META["C09"] = {
+    "engine": "V(+M)", "design_ref": "DESIGN.md section 6 (C08-C10)",
+    "note": "Bounded by the generated / shipped problems. Known finding GoalFluentUnchecked does not affect well-formed problems.",
+    "technique": "trace validation: exported problem text read by the TLA+ grammar and compared with the stored problem; "
+                 "library re-parse judged by ParseProblem",
+    "text": "Each problem is parsed, exported, read by the specification from the exported text and compared field by field "
+            "with the source; the library's re-parse of the text is judged like any other problem parse, and exported again."}
 NOT_YET = {}
 
 
